@@ -430,9 +430,29 @@ class TagClient(dataflow.Client):
                 key = "%s#%d" % (d.get("n"), d.get("d", -1))
                 if key in st:
                     del st[key]
+                is_obj = spec.cls.split("::")[-1] in (d.get("t") or "") and not d.get("ref") and d.get("tk") != "ptr"
                 if d.get("init", -1) < 0 or (d.get("init", -1) >= 0 and astq.is_default_constructed(fn, d["init"])):
-                    if spec.cls.split("::")[-1] in (d.get("t") or "") and not d.get("ref") and d.get("tk") != "ptr":
+                    if is_obj:
                         st[key] = [RS(frozenset(["Undefined"]) & self.ALL or self.ALL, frozenset(["Undefined"]) & self.ALL or self.ALL, True, True, 0)]
+                elif is_obj:
+                    # T x{y} / T x{Move(y)}: the new object takes over y's kind (copy and move constructors copy the discriminant);
+                    # after a move y is left Undefined with an emptied payload
+                    i0 = d["init"]
+                    while fn.nodes[fn.strip(i0)]["k"] in ("InitListExpr", "CXXUnresolvedConstructExpr", "ParenListExpr", "CXXConstructExpr", "CXXTemporaryObjectExpr", "CXXFunctionalCastExpr") and len(fn.nodes[fn.strip(i0)].get("ch", [])) == 1:
+                        i0 = fn.nodes[fn.strip(i0)]["ch"][0]
+                    sn = fn.nodes[fn.strip(i0)]
+                    moved = False
+                    if sn["k"] in ("CallExpr",) and fn.call_simple_name(fn.strip(i0)) in ("Move", "Forward") and fn.call_args(fn.strip(i0)):
+                        moved = True
+                        i0 = fn.call_args(fn.strip(i0))[0]
+                    sk = self.recv_key(i0)
+                    if sk and sk != key:
+                        src_states = self.get(st, sk)
+                        st[key] = [RS(r.P, r.T, r.zero, r.synced, 0) for r in src_states]
+                        if moved:
+                            und = frozenset(["Undefined"]) & self.ALL
+                            if und:
+                                st[sk] = [RS(und, und, True, True, nid)]
             return
         if k in ("BinaryOperator",) and n["op"] == "=":
             lhs = fn.nodes[fn.strip(n["ch"][0])]
@@ -670,7 +690,7 @@ def run(model, fn, spec, this_initial=None, exit_receivers=("this",), check_exit
             c.recording = False
             for e in b["el"]:
                 c.transfer(fn, st, e, b)
-            last = [e["n"] for e in b["el"] if "n" in e]
+            last = [e["n"] for e in b["el"] if isinstance(e.get("n"), int) and not e.get("k")]
             for key, r in st.items():
                 if key in ("__alias", "__eq", "__tagvals", "__tver", "__teq") or not isinstance(r, list):
                     continue
